@@ -19,20 +19,21 @@ from checks import bobbuild_common as bc
 from checks.c05_abort import select, ACTIONS
 
 PROP = "C01"
-WEAK = ["NoPruneOnDigestChange", "DigestIgnoresVars", "InputsIgnoreDep", "PrepIgnoresDigest"]
+WEAK = ["NoPruneOnDigestChange", "DigestIgnoresVars", "InputsIgnoreDep", "PrepIgnoresDigest", "ImportKeepsOld"]
 
 
 def replay_task(arg):
     i, hist, origin, release, jobs, cache = arg[:6]
     define = arg[6] if len(arg) > 6 else False
+    prune = arg[7] if len(arg) > 7 else True
     work = common.scratch("vf-c01-")
     try:
-        r = bc.BehaviourReplay(hist, work, bc.Oracle(cache), release=release, jobs=jobs, define=define).run()
+        r = bc.BehaviourReplay(hist, work, bc.Oracle(cache), release=release, jobs=jobs, define=define, prune=prune).run()
     finally:
         shutil.rmtree(work, ignore_errors=True)
     return {"i": i, "origin": origin, "violations": r.violations, "drift": r.drift, "invocations": r.invocations,
             "nontrivial": sorted(r.nontrivial), "shape": bc.shape_of(hist), "oracle_builds": r.oracle.builds,
-            "release": release, "jobs": jobs, "define": define}
+            "release": release, "jobs": jobs, "define": define, "prune": prune}
 
 
 def replay_file(path):
@@ -41,7 +42,7 @@ def replay_file(path):
     d = json.load(open(path))["detail"]
     cache = common.scratch("vf-c01-oracle-")
     r = replay_task((0, d["hist"], d.get("origin", "replay"), d.get("mode") == "release", d.get("jobs", 1), cache,
-                     bool(d.get("define"))))
+                     bool(d.get("define")), d.get("prune", True)))
     for sig, detail in r["violations"]:
         print("VIOLATION property=%s replay=%s" % (PROP, path))
         print("  signature: %s" % sig)
@@ -78,7 +79,12 @@ def main():
         if not r.printed:
             raise tlc.TlcError("weakened model %s produced no counterexample (vacuous weakening)" % w)
         rep.add_tlc(r, "BobBuild Weak={%s} (counterexample generation)" % w)
-        sel = select(r.printed, 8 if quick else 50, rng)
+        if w == "ImportKeepsOld":
+            # every single/double source edit of the import SCM (add, modify, modify in a sub-directory, delete)
+            only_src = [h for h in r.printed if all(x["a"] != "Edit" or (x["knob"] == "src" and x["p"] == "lib") for x in h)]
+            sel = select(only_src, 14 if quick else 40, rng)
+        else:
+            sel = select(r.printed, 8 if quick else 50, rng)
         rep.extra.setdefault("weakened_model_counterexamples", {})[w] = {"found": len(r.printed), "replayed": len(sel)}
         behaviours += [(h, "cex:" + w) for h in sel]
     g = out["gen"]
@@ -87,7 +93,7 @@ def main():
     rep.extra["simulated"] = {"generated": len(g.printed), "replayed": len(sel)}
     cache = common.scratch("vf-c01-oracle-")
     r = replay_task((0, d["hist"], d.get("origin", "replay"), d.get("mode") == "release", d.get("jobs", 1), cache,
-                     bool(d.get("define"))))
+                     bool(d.get("define")), d.get("prune", True)))
     for sig, detail in r["violations"]:
         print("VIOLATION property=%s replay=%s" % (PROP, path))
         print("  signature: %s" % sig)
@@ -119,7 +125,12 @@ def main():
         if not r.printed:
             raise tlc.TlcError("weakened model %s produced no counterexample (vacuous weakening)" % w)
         rep.add_tlc(r, "BobBuild Weak={%s} (counterexample generation)" % w)
-        sel = select(r.printed, 8 if quick else 50, rng)
+        if w == "ImportKeepsOld":
+            # every single/double source edit of the import SCM (add, modify, modify in a sub-directory, delete)
+            only_src = [h for h in r.printed if all(x["a"] != "Edit" or (x["knob"] == "src" and x["p"] == "lib") for x in h)]
+            sel = select(only_src, 14 if quick else 40, rng)
+        else:
+            sel = select(r.printed, 8 if quick else 50, rng)
         rep.extra.setdefault("weakened_model_counterexamples", {})[w] = {"found": len(r.printed), "replayed": len(sel)}
         behaviours += [(h, "cex:" + w) for h in sel]
     num = 120 if quick else 1200
@@ -133,12 +144,14 @@ def main():
         release = rng.random() < 0.3
         jobs = 4 if rng.random() < 0.3 else 1
         define = rng.random() < 0.3
-        tasks.append((i, h, origin, release, jobs, cache, define))
+        # import SCM without prune: only where no source file is ever deleted (documented caveat otherwise)
+        prune = not (bc.lib_never_deletes(h) and (rng.random() < 0.5 or origin == "cex:ImportKeepsOld"))
+        tasks.append((i, h, origin, release, jobs, cache, define, prune))
     with mp.get_context("fork").Pool(common.workers()) as pool:
         for r in pool.imap_unordered(replay_task, tasks):
             rep.traces += 1
             rep.evaluations += r["invocations"] + r["oracle_builds"]
-            rep.nontriv("%s|%s|j%d|D%d" % (r["shape"], "release" if r["release"] else "dev", r["jobs"], r["define"]))
+            rep.nontriv("%s|%s|j%d|D%d|P%d" % (r["shape"], "release" if r["release"] else "dev", r["jobs"], r["define"], r["prune"]))
             for d in r["drift"]:
                 rep.model_drift("%s: %s" % (r["shape"], d))
             for sig, detail in r["violations"]:
